@@ -1,5 +1,6 @@
 import PyaModel.Core.Fixes
 import PyaModel.Core.NodeCopy
+import PyaModel.Core.Binding
 /-!
 # Spec/FixSpec — what an automatic fix is *supposed* to do (property C16)
 
@@ -281,6 +282,10 @@ structure FixCase where
   /-- the statement is a `def` / `class` with decorators (its `lineno` is the line of the `def` keyword,
   the decorator lines lie above it) -/
   decorated : Bool := false
+  /-- the statement contains a `:=` (it binds a name other than through its target list) -/
+  hasWalrus : Bool := false
+  /-- the rewritten `"…" % x` template ends in a newline with text between the last specifier and it -/
+  pctTail : Bool := false
   deriving Repr
 
 /-- **Class `sharedLine`**: whole lines are replaced, so everything else on them is lost. -/
@@ -292,6 +297,15 @@ def D16_emptyBlock (c : FixCase) : Bool := c.adds == some [] && c.soleInBlock
 /-- **Class `elifHeader`**: the `elif` clause is re-generated from its `If` node as a new `if` statement. -/
 def D16_elifHeader (c : FixCase) : Bool := c.isElif && (match c.adds with | some (_ :: _) => true | _ => false)
 
+/-- **Class `walrusInRemoved`**: the unused-variable fix deletes a whole `target = value` statement because
+its *target list* is a single plain target — but the unused name is bound by a `:=` inside the value, and the
+statement's real target is lost with it. -/
+def D16_walrusInRemoved (c : FixCase) : Bool := c.adds == some [] && c.hasWalrus
+
+/-- **Class `fstringTail`**: `use_fstrings` on a template that ends in a newline drops the text between the
+last specifier and that newline (`"%s and %s!\n"` → `f"{a} and {c}\n"`). -/
+def D16_fstringTail (c : FixCase) : Bool := c.pctTail && (match c.adds with | some (_ :: _) => true | _ => false)
+
 /-- **Class `decoratedStmt`**: a decorated `def`/`class` is regenerated *with* its decorators, but only the
 lines from the `def` keyword on are replaced: the old decorator lines stay above the new ones. -/
 def D16_decoratedStmt (c : FixCase) : Bool := c.decorated && (match c.adds with | some (_ :: _) => true | _ => false)
@@ -299,6 +313,14 @@ def D16_decoratedStmt (c : FixCase) : Bool := c.decorated && (match c.adds with 
 /-- **Class `fstringConversion`**: `use_fstrings` turns `"%d" % x` into `f"{x}"` (no `int()` truncation:
 `"%d" % 2.5 == "2"`, `"%d" % True == "1"`) and `"%s" % t` into `f"{t}"` (a tuple `t` is no longer unpacked). -/
 def D16_fstringConversion (c : FixCase) : Bool := c.pctRisky && (match c.adds with | some (_ :: _) => true | _ => false)
+
+/-! ## Removal fixes: the statement may go iff it binds nothing but the unused name -/
+
+/-- The statement binds no name other than `u`. -/
+def soleBinding (s : AssignStmt) (u : String) : Bool := s.bound.all (· == u)
+
+/-- The statement binds a name through a `:=` (the model-level counterpart of `D16_walrusInRemoved`). -/
+def bindsInValue (s : AssignStmt) : Bool := !s.valueBinds.isEmpty
 
 /-! ## Node-level fixes: the tree with exactly one node replaced -/
 
